@@ -34,4 +34,25 @@ def wsQueue (msgs : List WsMessage) : List (List UInt8) :=
 /-- what the decoder behind `WebsocketTransport.Read` sees: the queued byte strings, concatenated -/
 def wsBytes (msgs : List WsMessage) : List UInt8 := (wsQueue msgs).flatten
 
+/-- what one call of `WebsocketTransport.Read` does (after fix F-05e): a queued message is delivered whatever the
+state of the close context; only with an empty queue does a closed context make the call fail (an open one blocks) -/
+inductive ReadOut where
+  | data (m : List UInt8)
+  | err
+  | blocks
+  deriving DecidableEq, Repr
+
+def wsRead (q : List (List UInt8)) (closed : Bool) : ReadOut × List (List UInt8) :=
+  match q with
+  | m :: rest => (.data m, rest)
+  | [] => (if closed then .err else .blocks, [])
+
+/-- the receive loop reading until the first call that does not deliver data (at most `fuel` calls) -/
+def wsDrain : Nat → List (List UInt8) → Bool → List ReadOut
+  | 0, _, _ => []
+  | fuel + 1, q, closed =>
+    match wsRead q closed with
+    | (.data m, rest) => .data m :: wsDrain fuel rest closed
+    | (o, _) => [o]
+
 end XmppVerif.Model.Transport
